@@ -52,13 +52,13 @@ static LP lp_from_sut(sut::Sut& s, bool rational) {
 
 static bool qclose(const Q& a, const Q& b, double rel) {
   if (a == b) return true; if (rel <= 0) return false;
-  double x = a.get_d(), y = b.get_d(); return fabs(x - y) <= rel * std::max(fabs(x), fabs(y));
+  double x = a.get_d(), y = b.get_d(); return fabs(x - y) <= rel * std::max(fabs(x), fabs(y)) || fabs(x - y) <= 1.0000001e-15;   // MPS prints 15 decimals (fixed notation)
 }
 static bool eclose(const Ext& a, const Ext& b, double rel) { if (a.inf != b.inf) return false; return a.inf != 0 || qclose(a.v, b.v, rel); }
 
 // equivalence up to the documented normalisations: ranged rows may be split into two one-sided rows, free rows may vanish,
 // a maximisation problem may come back as the minimisation of the negated objective. rel = admissible relative error of a number.
-static bool lp_equivalent(const LP& a, const LP& b, double rel, std::string* why) {
+static bool lp_equivalent(const LP& a, const LP& b, double rel, std::string* why, bool ignoreOffset = false) {
   if (a.ncols() != b.ncols()) { *why = "number of columns " + std::to_string(a.ncols()) + " vs " + std::to_string(b.ncols()); return false; }
   int flip = (a.sense == b.sense) ? 1 : -1;
   for (int j = 0; j < a.ncols(); j++) {
@@ -67,7 +67,7 @@ static bool lp_equivalent(const LP& a, const LP& b, double rel, std::string* why
     if (!qclose(a.obj[j], Q(b.obj[j] * flip), rel)) { *why = "objective of column " + std::to_string(j) + ": " + a.obj[j].get_str() + " vs " + b.obj[j].get_str() + (flip < 0 ? " (senses differ)" : ""); return false; }
   }
   // the objective constant is not part of an MPS file (it travels in the settings file); with inverted sense either sign is accepted
-  if (!qclose(a.offset, Q(b.offset * flip), rel) && !(flip < 0 && qclose(a.offset, b.offset, rel))) { *why = "objective offset " + a.offset.get_str() + " vs " + b.offset.get_str(); return false; }
+  if (!ignoreOffset && !qclose(a.offset, Q(b.offset * flip), rel) && !(flip < 0 && qclose(a.offset, b.offset, rel))) { *why = "objective offset " + a.offset.get_str() + " vs " + b.offset.get_str(); return false; }
   struct R1 { std::vector<Q> c; int type; Q side; };   // type 0: <=, 1: =, 2: >=
   auto expand = [](const LP& lp) {
     std::vector<R1> out;
@@ -112,7 +112,7 @@ void Executor::check_loaded_lp(Obj& o, const std::string& what) {
       sut::SVec r = s.rowVec(i); bool f = false; for (size_t q = 0; q < r.idx.size(); q++) if (r.idx[q] == j && r.val[q] == c.val[k]) f = true;
       if (!f) { viol("C13", "inconsistent_lp_after_read", what + ": column entry not mirrored in the row copy"); return; } } }
   if (cnt != cnt2 || cnt != s.numNonzeros()) { viol("C13", "inconsistent_lp_after_read", what + ": nonzero counts of row copy, column copy and numNonzeros() differ"); return; }
-  if (s.numRowNames() >= 0 && (s.numRowNames() != m || s.numColNames() != n)) { viol("C13", "names_do_not_match_dimensions", what + ": name sets do not match the dimensions"); return; }
+  if (s.numRowNames() >= 0 && (s.numRowNames() != m || s.numColNames() != n)) { o.inconsistent = true; viol("C13", "names_do_not_match_dimensions", what + ": name sets do not match the dimensions"); return; }
   if (s.getInt(P::i("syncmode")) != 0 && !s.areLPsInSync(true, true)) { viol("C13", "inconsistent_lp_after_read", what + ": areLPsInSync() false after a successful read"); return; }
 }
 
@@ -129,7 +129,7 @@ void Executor::op_file(const Op& op, TaskCtx& t) {
     if (names && o->s->numRowNames() < 0) o->s->setDefaultNames();
     bool ok = true;
     if (kind == "lp" || kind == "mps") ok = op.geti("rational", 0) ? o->s->writeFileRational(path(ext_of(kind, cpx)), names) : o->s->writeFile(path(ext_of(kind, cpx)), names, true);
-    else if (kind == "bas") ok = o->s->writeBasisFile(path(".bas"), names, cpx);
+    else if (kind == "bas") { ok = o->s->writeBasisFile(path(".bas"), names, cpx); o->savedBasisName = name; o->savedRows.clear(); o->savedCols.clear(); if (o->s->hasBasis()) o->s->getBasis(o->savedRows, o->savedCols); }
     else if (kind == "set") ok = o->s->saveSettings(path(".set"), op.geti("onlychanged", 0) != 0);
     else if (kind == "state") { if (op.geti("rational", 0)) o->s->writeStateRational(dir + name, names, cpx); else o->s->writeStateReal(dir + name, names, cpx); }
     count("file_write:" + kind); (void)ok;
@@ -195,6 +195,16 @@ void Executor::op_file(const Op& op, TaskCtx& t) {
       if (outcome != 1 && !faulted) viol("C12", "valid_file_rejected", "readFile failed on a file written by SoPlex itself: " + f + " " + exc);
     } else if (kind == "bas") {
       if (outcome == 1 && o->s->hasBasis() && (opt_.want("C04") || opt_.want("C14") || opt_.want("C13"))) check_basis(*o, false);
+      if (outcome == 1 && !faulted && opt_.want("C14") && o->savedBasisName == name && (int)o->savedRows.size() == o->s->numRows() && (int)o->savedCols.size() == o->s->numCols() && !o->savedRows.empty()) {
+        // the file was written by this object earlier in the history; whatever basis the object holds now, reading restores the saved statuses
+        std::vector<int> r2, c2; o->s->getBasis(r2, c2);
+        auto same = [&](int x, int y, double lo, double up) { if (x == y) return true; return lo == up && x != sut::VS_BASIC && y != sut::VS_BASIC && x != sut::VS_ZERO && y != sut::VS_ZERO; };
+        std::string why;
+        for (size_t j = 0; j < c2.size() && why.empty(); j++) if (!same(o->savedCols[j], c2[j], o->s->lower((int)j), o->s->upper((int)j))) why = "column " + std::to_string(j) + " saved as " + std::to_string(o->savedCols[j]) + " restored as " + std::to_string(c2[j]);
+        for (size_t i = 0; i < r2.size() && why.empty(); i++) if (!same(o->savedRows[i], r2[i], o->s->lhs((int)i), o->s->rhs((int)i))) why = "row " + std::to_string(i) + " saved as " + std::to_string(o->savedRows[i]) + " restored as " + std::to_string(r2[i]);
+        count("basis_restored_into_same_object");
+        if (!why.empty()) viol("C14", "basis_roundtrip_differs", "read back into the object that wrote it (now holding another basis): " + why, {{"names", names ? "1" : "0"}, {"into", "self"}});
+      }
       if (outcome != 1 && !faulted) viol("C14", "valid_basis_file_rejected", "readBasisFile failed on a basis file written by SoPlex itself (" + std::string(names ? "user names" : "default names") + ") " + exc, {{"names", names ? "1" : "0"}});
     } else if (kind == "set") {
       // the parameter model follows the getters after a settings load (exactness is judged by the round-trip oracle)
@@ -258,14 +268,14 @@ void Executor::op_file(const Op& op, TaskCtx& t) {
     if (rational) { b.setInt(P::i("syncmode"), 1); b.setInt(P::i("readmode"), 1); }
     bool ok = false; std::string exc;
     try { ok = b.readFile(f, op.geti("readnames", 0) != 0); } catch (const sut::Exc& e) { exc = e.what; }
-    count("roundtrips:" + kind + (rational ? ":rational" : ":real"));
+    count("roundtrips:" + kind + (rational ? ":rational" : ":real")); res_.nontrivial = true;
     auto ctx = ctx_of(*o); ctx["kind"] = kind; ctx["rational"] = rational ? "1" : "0";
     if (!ok) { viol("C12", "valid_file_rejected", "file written by SoPlex (" + kind + (rational ? ", rational" : ", real") + ") cannot be read back: " + exc, ctx); return; }
     LP written = rational ? o->lp : real_image(o->lp);
     LP back = lp_from_sut(b, rational);
     std::string why;
     double rel = (!rational && kind == "mps") ? 2e-15 : 0.0;
-    if (!lp_equivalent(written, back, rel, &why)) { viol("C12", "roundtrip_differs", kind + (rational ? " rational: " : " real: ") + why, ctx); return; }
+    if (!lp_equivalent(written, back, rel, &why, true)) { viol("C12", "roundtrip_differs", kind + (rational ? " rational: " : " real: ") + why, ctx); return; }
     return;
   }
   if (what == "streamread") {
@@ -279,7 +289,7 @@ void Executor::op_file(const Op& op, TaskCtx& t) {
     { ChunkBuf cb(data, (size_t)std::max(1L, op.geti("chunk", 1)), mix(plan_.seed, 0xC4), op.geti("failat", -1)); std::istream in(&cb);
       try { r2 = sut::stream_read_lp(in, rational, chunked); } catch (const sut::Exc& e) { r2 = 2; e2 = e.what; }
       count("stream_underflows", (long)cb.underflows); }
-    count("stream_reads");
+    count("stream_reads"); res_.nontrivial = true;
     if (op.geti("failat", -1) < 0) {
       if (r1 != r2 || (r1 == 1 && (whole.rows != chunked.rows || whole.cols != chunked.cols || whole.nnz != chunked.nnz)))
         viol("C12", "chunking_changes_result", "reading the same bytes in chunks of " + op.get("chunk", "1") + " gives a different result than reading them at once");
@@ -314,7 +324,7 @@ void Executor::op_file(const Op& op, TaskCtx& t) {
       try { okS = b->loadSettings(base + ".set"); } catch (const sut::Exc& e) { exc = e.what; }
       try { okL = b->readFile(base + (cpx ? ".lp" : ".mps"), names); } catch (const sut::Exc& e) { exc = e.what; }
       try { okB = okL && b->readBasisFile(base + ".bas", names); } catch (const sut::Exc& e) { exc = e.what; }
-      count("state_roundtrips");
+      count("state_roundtrips"); res_.nontrivial = true;
       if (crash < 3 || op.geti("stale", 0)) {
         // after a torn snapshot only this is demanded: whatever loads is self-consistent and a loaded basis fits the loaded LP
         if (okL) { Obj tmp; tmp.s = std::move(b); tmp.lp = lp_from_sut(*tmp.s, false); tmp.pm.reset(); check_loaded_lp(tmp, "after torn snapshot"); if (okB && tmp.s->hasBasis()) check_basis(tmp, false); b = std::move(tmp.s); }
@@ -342,7 +352,7 @@ void Executor::op_file(const Op& op, TaskCtx& t) {
       if (names) b->setDefaultNames();
       bool okB = false; std::string exc;
       try { okB = b->readBasisFile(base + ".bas", names); } catch (const sut::Exc& e) { exc = e.what; }
-      count("basis_roundtrips");
+      count("basis_roundtrips"); res_.nontrivial = true;
       if (!okB) { viol("C14", "valid_basis_file_rejected", std::string("a basis file written by writeBasisFile cannot be read back (") + (names ? "user names" : "default names") + (cpx ? ", cpx format" : "") + ") " + exc, ctx); return; }
     }
     if (b->numRows() != a.numRows() || b->numCols() != a.numCols()) { if (!state) viol("C14", "basis_roundtrip_dimension", "dimensions differ", ctx); return; }
@@ -362,6 +372,7 @@ void Executor::op_file(const Op& op, TaskCtx& t) {
       int stB = b->optimize(nullptr);
       t.bug_mask = savemask;
       if (stB != stA && !(stA != sut::ST_OPTIMAL && stB != sut::ST_OPTIMAL && (stB == sut::ST_INFEASIBLE || stB == sut::ST_UNBOUNDED || stB == sut::ST_INForUNBD))) {
+        ctx["status"] = sut::status_name(stB); ctx["expected"] = sut::status_name(stA);
         viol("C14", "restored_solve_status", std::string("solver started from the restored basis returns ") + sut::status_name(stB) + ", the saved solver had " + sut::status_name(stA), ctx); return; }
       double objB = stB == sut::ST_OPTIMAL ? b->objValue() : 0;
       if (state && b->getInt(P::i("objsense")) != a.getInt(P::i("objsense"))) objB = -(objB - b->getReal(P::r("obj_offset"))) + a.getReal(P::r("obj_offset"));   // documented MPS sense inversion
@@ -378,7 +389,7 @@ void Executor::op_file(const Op& op, TaskCtx& t) {
     bool okw = a.saveSettings(f, only);
     sut::Sut b; bool okr = false; std::string exc;
     try { okr = b.loadSettings(f); } catch (const sut::Exc& e) { exc = e.what; }
-    count("settings_roundtrips");
+    count("settings_roundtrips"); res_.nontrivial = true;
     if (!okw || !okr) { viol("C15", "valid_settings_file_rejected", "saveSettingsFile/loadSettingsFile failed on a fresh settings file " + exc); return; }
     auto& pi = sut::param_info();
     for (int p = 0; p < pi.nbool; p++) if (a.getBool(p) != b.getBool(p)) { viol("C15", "settings_roundtrip", "bool:" + pi.bname[p] + " saved " + std::to_string(a.getBool(p)) + " loaded " + std::to_string(b.getBool(p))); return; }
